@@ -5,6 +5,7 @@ import Spydr.Verilog.RoundTripSingle
 import Spydr.Verilog.RoundTripBits
 import Spydr.Verilog.RoundTripView
 import Spydr.Verilog.RoundTripTokD
+import Spydr.Verilog.RoundTripText
 
 #print axioms Spydr.Verilog.getWires_spec
 #print axioms Spydr.Verilog.getWires_spec_single_all
@@ -73,3 +74,6 @@ import Spydr.Verilog.RoundTripTokD
 #print axioms Spydr.Verilog.Elab.parse_tokens
 #print axioms Spydr.Verilog.Elab.c04_tokens
 #print axioms Spydr.Verilog.Elab.exNet_tokens
+#print axioms Spydr.Verilog.Elab.c04_text
+#print axioms Spydr.Verilog.Elab.exNet_full
+#print axioms Spydr.Verilog.Elab.exNet_roundtrip
